@@ -15,8 +15,12 @@ def check_c19(tier):
                        "CountingWriter is bound as a component (Write / ReadFrom sequences from sources with / without io.WriterTo). "
                        "distinct_nontrivial = distinct (serializer, k, mode, destination) runs with k < |O|")
     mo = 6 if tier == "quick" else 8
-    r = tlc("MC_WriterFaults", "SPECIFICATION Spec\nCONSTANTS MaxOut = %d\nINVARIANTS AcceptedIsPrefix NoFalseSuccess ControlSucceeds LogConsistent\nCHECK_DEADLOCK FALSE\n" % mo, "C19/mc")
+    r = tlc("MC_WriterFaults", "SPECIFICATION Spec\nCONSTANTS MaxOut = %d\nINVARIANTS AcceptedIsPrefix NoFalseSuccess ControlSucceeds LogConsistent AbsInv\nPROPERTIES AbsSpec\nCHECK_DEADLOCK FALSE\n" % mo, "C19/mc")
     rep.add_tlc("MC_WriterFaults", r)
+    # unbounded: the same discipline for ALL output sizes / fault positions / chunkings (Apalache, inductive invariant);
+    # the TLC model above refines the typed module (PROPERTIES AbsSpec), which ties the proof to the model bound to the code
+    from proofs import inductive
+    inductive(rep, "C19", "WriterFaultsInd", mutate=("/\\ done' = TRUE /\\ reterr' = TRUE /\\ pos' = pos", "/\\ done' = TRUE /\\ reterr' = FALSE /\\ pos' = pos"))
     wd = workdir("C19")
     p = os.path.join(wd, "run.ndjson")
     vh_to_file(["wf-run", tier], p, timeout=3000)
